@@ -114,8 +114,11 @@ func scenarios(tier string, seed int64) []scenario {
 			for j := r.Range(2, 3); j > 0; j-- {
 				cs = append(cs, credOf(pairs[r.Intn(len(pairs))]))
 			}
-			if r.Chance(1, 8) {
-				cs = append(cs, r.PickS([]string{"*", "nocolon"}))
+			if r.Chance(1, 6) {
+				// the wildcard, or an entry without ':' (which matches nothing), anywhere in the list: the entries
+				// after it count as much as those before it
+				at := r.Intn(len(cs) + 1)
+				cs = append(cs[:at:at], append([]string{r.PickS([]string{"*", "nocolon", "nocolon"})}, cs[at:]...)...)
 			}
 			var as []attempt
 			for j := r.Range(1, 4); j > 0; j-- {
